@@ -278,7 +278,7 @@ impl<F: Float, L: Label + std::fmt::Debug> TreeNode<F, L> {
 
             // We keep a running total of the aggregate weight in the right split
             // to avoid having to sum over the hash map
-            let total_weight = parent_class_freq.values().sum::<f32>();
+            let total_weight = ordered_freqs(&parent_class_freq).into_iter().sum::<f32>();
             let mut weight_on_right_side = total_weight;
             let mut weight_on_left_side = 0.0;
 
@@ -731,13 +731,23 @@ fn find_modal_class<L: Label>(class_freq: &HashMap<L, f32>) -> L {
     (*val).clone()
 }
 
+/// Returns the class frequencies in ascending order of their class. The iteration order of a
+/// hash map is random (per map instance) and floating point sums depend on the order of their
+/// terms, so every sum over class frequencies goes through this function.
+fn ordered_freqs<L: Label>(class_freq: &HashMap<L, f32>) -> Vec<f32> {
+    let mut freqs = class_freq.iter().collect::<Vec<_>>();
+    freqs.sort_unstable_by(|a, b| a.0.cmp(b.0));
+    freqs.into_iter().map(|(_, freq)| *freq).collect()
+}
+
 /// Given the class frequencies calculates the gini impurity of the subset.
 fn gini_impurity<L: Label>(class_freq: &HashMap<L, f32>) -> f32 {
-    let n_samples = class_freq.values().sum::<f32>();
+    let class_freq = ordered_freqs(class_freq);
+    let n_samples = class_freq.iter().sum::<f32>();
     assert!(n_samples > 0.0);
 
     let purity = class_freq
-        .values()
+        .iter()
         .map(|x| x / n_samples)
         .map(|x| x * x)
         .sum::<f32>();
@@ -747,11 +757,12 @@ fn gini_impurity<L: Label>(class_freq: &HashMap<L, f32>) -> f32 {
 
 /// Given the class frequencies calculates the entropy of the subset.
 fn entropy<L: Label>(class_freq: &HashMap<L, f32>) -> f32 {
-    let n_samples = class_freq.values().sum::<f32>();
+    let class_freq = ordered_freqs(class_freq);
+    let n_samples = class_freq.iter().sum::<f32>();
     assert!(n_samples > 0.0);
 
     class_freq
-        .values()
+        .iter()
         .map(|x| x / n_samples)
         .map(|x| if x > 0.0 { -x * x.log2() } else { 0.0 })
         .sum()
